@@ -277,6 +277,14 @@ STRUCT_DAY_IDS = [1, 2, 31, 32, 59, 60, 61, 90, 365, 366, 367, 424, 425, 426, 73
                   732, 766, 767, 795, 801, 802, 830, 836, 1011, 1046, 1116, 1117, 1145, 1151]  # M1.1.0 M1.5.6 M2.1.0 M2.5.0 M3.* M9/M10 M11.5.6 M12.*
 
 
+def m_id(m, w, d):
+    return 732 + (m - 1) * 35 + (w - 1) * 7 + d
+
+
+# Mm.w.d notations in the same and adjacent months (incl. December/January) with every week: the case analysis of the constructor
+M_FAMILY = sorted({m_id(m, w, d) for m in (1, 2, 3, 4, 12) for w in (1, 2, 3, 4, 5) for d in (0, 3, 6)})
+
+
 def group_by_zone(raw, out, ops=None):
     groups, order = {}, []
     for l in open(raw):
@@ -320,8 +328,8 @@ def check_C11(tier, seed):
     rng = random.Random(seed * 7919 + 11)
     q = tier == "quick"
     raw = os.path.join(C.OUT, "C11-vectors-raw.ndjson")
-    starts = sorted(set(rng.sample(STRUCT_DAY_IDS, 10 if q else 29) + rng.sample(ALL_DAY_IDS, 14 if q else 100)))
-    ends = sorted(set(STRUCT_DAY_IDS + rng.sample(ALL_DAY_IDS, 30 if q else 200)))
+    starts = sorted(set(rng.sample(STRUCT_DAY_IDS, 8 if q else 29) + rng.sample(M_FAMILY, 10 if q else 40) + rng.sample(ALL_DAY_IDS, 8 if q else 100)))
+    ends = sorted(set(STRUCT_DAY_IDS + rng.sample(M_FAMILY, 25 if q else 75) + rng.sample(ALL_DAY_IDS, 15 if q else 200)))
     # literal 400-year definition on a sub-sample, derived decision on all selected pairs
     res.add_mc(run_mc("MC_Cons", dict(StartIds=tla_set(rng.sample(starts, 4)), EndIds=tla_set(rng.sample(ends, 12)), EmitVec="FALSE", Literal="TRUE"), workers=C.NCPU, tag="C11-literal", timeout=3000))
     res.add_mc(run_mc("MC_Cons", dict(StartIds=tla_set(starts), EndIds=tla_set(ends), EmitVec="TRUE", Literal="FALSE"), workers=C.NCPU, vec_out=raw, timeout=6000, xmx="12g"))
